@@ -441,7 +441,16 @@ def _dunder(interp, obj, name, args, node):
     raise Unsupported(f"{name} on {obj!r}")
 
 
+def mutating(interp, obj, what, node=None):
+    """frame obligation: the object held by a ContextVar (tag SHARED) is never mutated in place"""
+    if "SHARED" in getattr(obj, "tags", ()):
+        interp.ctx.oblige("frame", f"{interp.current_target}/no-in-place-mutation-of-shared-payload",
+                          F(), {"clause": f"{what} on the object obtained from ContextVar.get() (line {getattr(node, 'lineno', '?')}); "
+                                          "it must be copied first"})
+
+
 def setitem(interp, obj, idx, v, node):
+    mutating(interp, obj, "item assignment", node)
     if isinstance(idx, tuple) and idx and idx[0] == "slice":
         _, lo, hi = idx
         lo = as_int(lo) if lo is not None else None
@@ -510,6 +519,7 @@ def setitem(interp, obj, idx, v, node):
 
 
 def delitem(interp, obj, idx, node):
+    mutating(interp, obj, "item deletion", node)
     if isinstance(idx, tuple) and idx and idx[0] == "slice":
         _, lo, hi = idx
         lo = as_int(lo) if lo is not None else None
@@ -716,7 +726,23 @@ def dict_get(interp, d, key, node):
 def dict_set(interp, d, key, v, node):
     key = interp.need(key)
     if d.concrete:
-        d.items[interp.hashable(key)] = v
+        try:
+            hk = interp.hashable(key)
+        except Unsupported:
+            if d.items or not isinstance(key, (VStr, VInt)):
+                raise
+            # an empty dict literal receiving a symbolic key becomes a symbolic dict
+            from .values import shape_of
+            vv = interp.need(v) if isinstance(v, VOpt) and False else v
+            sh = shape_of(vv)
+            d.items = None
+            d.keykind = key.kind if isinstance(key, VStr) else "int"
+            d.keysort = StrS if isinstance(key, VStr) else IntS
+            d.shape = sh
+            d.present = z3.K(d.keysort, F())
+            d.arrs = [z3.K(d.keysort, ops.default_leaf(ls)) for ls in leaf_sorts(sh)]
+            return dict_set(interp, d, key, v, node)
+        d.items[hk] = v
         return
     kz = key_z(key)
     leaves = flatten(coerce(interp, v, d.shape), d.shape)
@@ -885,11 +911,13 @@ def construct_external(interp, cv, args, kwargs, node):
 # list / bytearray / dict / set methods
 
 def _list_append(it, a, k, n):
+    mutating(it, a[0], 'append()', n)
     list_append(it, a[0], a[1])
     return NONE
 
 
 def _list_extend(it, a, k, n):
+    mutating(it, a[0], 'extend()', n)
     lst, other = a[0], it.need(a[1])
     if lst.concrete:
         lst.items.extend(it.concrete_items(other, n))
@@ -904,6 +932,7 @@ def _list_extend(it, a, k, n):
 
 
 def _list_pop(it, a, k, n):
+    mutating(it, a[0], 'pop()', n)
     lst = a[0]
     if lst.concrete:
         if not lst.items:
@@ -931,6 +960,7 @@ def _list_pop(it, a, k, n):
 
 
 def _list_insert(it, a, k, n):
+    mutating(it, a[0], 'insert()', n)
     lst = a[0]
     if lst.concrete:
         i = concrete_int(as_int(a[1]))
@@ -952,6 +982,7 @@ def _list_copy(it, a, k, n):
 
 
 def _list_clear(it, a, k, n):
+    mutating(it, a[0], 'clear()', n)
     lst = a[0]
     if lst.concrete:
         lst.items.clear()
@@ -971,6 +1002,7 @@ def _list_index(it, a, k, n):
 
 
 def _list_remove(it, a, k, n):
+    mutating(it, a[0], 'remove()', n)
     lst, x = a[0], a[1]
     if lst.concrete:
         for i, y in enumerate(lst.items):
@@ -1028,6 +1060,7 @@ def _dict_get(it, a, k, n):
 
 
 def _dict_pop(it, a, k, n):
+    mutating(it, a[0], 'pop()', n)
     d, key = a[0], it.need(a[1])
     has = dict_has(it, d, key)
     if it.branch(has, "dict.pop"):
@@ -1040,6 +1073,7 @@ def _dict_pop(it, a, k, n):
 
 
 def _dict_setdefault(it, a, k, n):
+    mutating(it, a[0], 'setdefault()', n)
     d, key = a[0], it.need(a[1])
     default = a[2] if len(a) > 2 else NONE
     if it.branch(dict_has(it, d, key), "dict.setdefault"):
@@ -1075,6 +1109,7 @@ def _dict_copy(it, a, k, n):
 
 
 def _dict_clear(it, a, k, n):
+    mutating(it, a[0], 'clear()', n)
     d = a[0]
     if d.concrete:
         d.items.clear()
@@ -1084,6 +1119,7 @@ def _dict_clear(it, a, k, n):
 
 
 def _dict_update(it, a, k, n):
+    mutating(it, a[0], 'update()', n)
     d = a[0]
     if len(a) > 1:
         o = it.need(a[1])
@@ -1105,6 +1141,7 @@ DICT_METHODS = {
 
 
 def _set_add(it, a, k, n):
+    mutating(it, a[0], 'add()', n)
     s, x = a[0], it.need(a[1])
     if s.items is not None:
         s.items.append(x)
@@ -1114,6 +1151,7 @@ def _set_add(it, a, k, n):
 
 
 def _set_remove(it, a, k, n):
+    mutating(it, a[0], 'remove()', n)
     s, x = a[0], it.need(a[1])
     if s.items is not None:
         raise Unsupported("concrete set remove")
@@ -1124,6 +1162,7 @@ def _set_remove(it, a, k, n):
 
 
 def _set_discard(it, a, k, n):
+    mutating(it, a[0], 'discard()', n)
     s, x = a[0], it.need(a[1])
     if s.items is not None:
         raise Unsupported("concrete set discard")
@@ -1132,6 +1171,7 @@ def _set_discard(it, a, k, n):
 
 
 def _set_clear(it, a, k, n):
+    mutating(it, a[0], 'clear()', n)
     s = a[0]
     if s.items is not None:
         s.items.clear()
